@@ -16,6 +16,7 @@ LEMMAS = {
     "Lbyname": lambda prog, res: lemmas.lemma_byname(prog, res),
     "L7strtab": lambda prog, res: lemmas.lemma_L7strtab(prog, res),
     "L7symver3": lambda prog, res: lemmas.lemma_L7symver3(prog, res),
+    "L7symverfixed": lambda prog, res: lemmas.lemma_L7symverfixed(prog, res),
     "L7": lambda prog, res: lemmas.lemma_L7(prog, res),
     "L7both": lambda prog, res: lemmas.lemma_L7(prog, res, classes=("ELF32", "ELF64")),
 }
